@@ -20,8 +20,14 @@ def reset_exo_globals():
     from exo.core.prelude import Sym
     from exo.rewrite import new_eff as NE
 
-    PE._UF_Unv.lookup.clear()
-    PE._UF_Strict.lookup.clear()
+    # brand-new universes (not just cleared tables): whatever else the objects carry
+    # - e.g. a memo added inside _UnionFind - must not survive into the next run either
+    try:
+        PE._UF_Unv = type(PE._UF_Unv)()
+        PE._UF_Strict = type(PE._UF_Strict)()
+    except Exception:
+        PE._UF_Unv.lookup.clear()
+        PE._UF_Strict.lookup.clear()
     PE._UF_Unv_key.clear()
     for nm in (
         "_simple_proc_cache",
